@@ -470,6 +470,7 @@ func (n *QueryFluxNode) UnmarshalJSON(data []byte) error {
 	var raw = &struct {
 		TypeOf
 		*Alias
+		Period string `json:"period"`
 		Every  string `json:"every"`
 		Offset string `json:"offset"`
 	}{
@@ -481,6 +482,10 @@ func (n *QueryFluxNode) UnmarshalJSON(data []byte) error {
 	}
 	if raw.Type != "queryFlux" {
 		return fmt.Errorf("error unmarshaling node %d of type %s as QueryNode", raw.ID, raw.Type)
+	}
+	n.Period, err = influxql.ParseDuration(raw.Period)
+	if err != nil {
+		return err
 	}
 
 	n.Every, err = influxql.ParseDuration(raw.Every)
